@@ -2,7 +2,7 @@
    (Model: Compact.v filter_step = subcompact's loop; these are corollaries of the drop
    classification proved in CompactProofs.v; the all-histories lift is C12's.) *)
 From Verif Require Import Bytes Keys Consts Spec Lsm Compact.
-From Verif Require CompactProofs RetentionProofs.
+From Verif Require CompactProofs RetentionProofs RetentionExactProofs.
 Open Scope N_scope.
 Import CompactProofs.
 
@@ -50,3 +50,201 @@ Example C13_keep_two_versions :
   compact_filter p [mkE [7] 9 0 0 0 [3]; mkE [7] 8 0 0 0 [2]; mkE [7] 7 0 0 0 [1]]
   = [mkE [7] 9 0 0 0 [3]; mkE [7] 8 0 0 0 [2]].
 Proof. reflexivity. Qed.
+
+(* ======================================================================================
+   The POSITIVE side: exactly what the coded filter keeps (RetentionExactProofs.v).
+
+   Specification, computed from the source m alone (entries of one key appear newest first):
+     counted p e        e_ver e <= discard  and  e is not a merge-operator entry
+     rank p m e         number of counted entries of e's key strictly newer than e
+     stopper p m e      e is counted and (deleted/expired at cp_now, or bitDiscardEarlierVersions,
+                        or rank + 1 = NumVersionsToKeep)        -- the retention-ending condition
+     behind_stop p m e  some strictly newer entry of e's key is a stopper
+     stop_entry p m e   stopper and not behind_stop: THE stop entry of the key
+     kept_spec p m e    not behind_stop, and (not stopper, or live, or hasOverlap)
+   ====================================================================================== *)
+Import RetentionExactProofs.
+
+(* the filter IS the specification, entry for entry and in the same order *)
+Theorem C13_retention_exact : forall p, cp_drop p = [] -> forall m, sorted m ->
+  compact_filter p m = filter (kept_spec p m) m.
+Proof. exact RetentionExactProofs.retention_exact. Qed.
+Print Assumptions C13_retention_exact.
+
+(* the same, case by case: (a) above the watermark; (b) before the stop entry of its key and not
+   itself retention-ending; (c) the stop entry itself, if live or if something below overlaps *)
+Theorem C13_retention_exact_iff : forall p, cp_drop p = [] -> forall m e, sorted m -> In e m ->
+  (In e (compact_filter p m) <->
+     cp_discard p < e_ver e
+     \/ (behind_stop p m e = false /\ stopper p m e = false)
+     \/ (stop_entry p m e = true
+         /\ (deleted_or_expired e (cp_now p) = false \/ cp_overlap p = true))).
+Proof. exact RetentionExactProofs.retention_exact_iff. Qed.
+Print Assumptions C13_retention_exact_iff.
+
+(* how to read the boolean specification *)
+Theorem C13_spec_stopper : forall p m e,
+  stopper p m e = true <->
+  e_ver e <= cp_discard p /\ is_merge e = false /\
+  (deleted_or_expired e (cp_now p) = true \/ has_discard e = true \/ rank p m e + 1 = cp_nkeep p).
+Proof. exact RetentionExactProofs.stopper_iff. Qed.
+Print Assumptions C13_spec_stopper.
+
+Theorem C13_spec_behind_stop : forall p m e,
+  behind_stop p m e = true <->
+  exists x, In x m /\ e_key x = e_key e /\ e_ver e < e_ver x /\ stopper p m x = true.
+Proof. exact RetentionExactProofs.behind_stop_iff. Qed.
+Print Assumptions C13_spec_behind_stop.
+
+Theorem C13_spec_stop_entry : forall p m e,
+  stop_entry p m e = true <-> stopper p m e = true /\ behind_stop p m e = false.
+Proof. exact RetentionExactProofs.stop_entry_iff. Qed.
+Print Assumptions C13_spec_stop_entry.
+
+Theorem C13_stop_entry_unique : forall p m a b,
+  In a m -> In b m -> e_key a = e_key b ->
+  stop_entry p m a = true -> stop_entry p m b = true -> e_ver a = e_ver b.
+Proof. exact RetentionExactProofs.stop_entry_unique. Qed.
+Print Assumptions C13_stop_entry_unique.
+
+(* "keeps the newest NumVersionsToKeep versions of each key": fewer than NumVersionsToKeep counted
+   entries above it, none of them a delete / expired / discard-earlier entry, itself live => kept *)
+Theorem C13_keeps_newest_nkeep : forall p, cp_drop p = [] -> forall m e,
+  sorted m -> In e m ->
+  rank p m e < cp_nkeep p ->
+  (forall x, In x m -> e_key x = e_key e -> e_ver e < e_ver x ->
+     e_ver x <= cp_discard p -> is_merge x = false ->
+     deleted_or_expired x (cp_now p) = false /\ has_discard x = false) ->
+  deleted_or_expired e (cp_now p) = false ->
+  In e (compact_filter p m).
+Proof. exact RetentionExactProofs.keeps_newest_nkeep. Qed.
+Print Assumptions C13_keeps_newest_nkeep.
+
+(* "stopping early at (and dropping older than)": everything of the key older than the stop
+   entry goes, merge entries included; everything newer stays *)
+Theorem C13_stops_at_marker : forall p, cp_drop p = [] -> forall m s e,
+  sorted m -> In s m -> stop_entry p m s = true ->
+  e_key e = e_key s -> e_ver e < e_ver s -> ~ In e (compact_filter p m).
+Proof. exact RetentionExactProofs.stops_at_marker. Qed.
+Print Assumptions C13_stops_at_marker.
+
+Theorem C13_kept_before_stop : forall p, cp_drop p = [] -> forall m s e,
+  sorted m -> In s m -> stop_entry p m s = true ->
+  In e m -> e_key e = e_key s -> e_ver s < e_ver e -> In e (compact_filter p m).
+Proof. exact RetentionExactProofs.kept_before_stop. Qed.
+Print Assumptions C13_kept_before_stop.
+
+Theorem C13_keeps_all_without_stop : forall p, cp_drop p = [] -> forall m e,
+  sorted m -> In e m ->
+  (forall x, In x m -> e_key x = e_key e -> stopper p m x = false) ->
+  In e (compact_filter p m).
+Proof. exact RetentionExactProofs.keeps_all_without_stop. Qed.
+Print Assumptions C13_keeps_all_without_stop.
+
+(* at most NumVersionsToKeep counted versions of a key survive (NumVersionsToKeep >= 1) *)
+Theorem C13_at_most_nkeep_live_below_watermark : forall p, cp_drop p = [] -> forall m k,
+  sorted m -> 1 <= cp_nkeep p ->
+  N.of_nat (length (filter (fun e => bytes_eqb (e_key e) k && counted p e) (compact_filter p m)))
+  <= cp_nkeep p.
+Proof. exact RetentionExactProofs.at_most_nkeep_live_below_watermark. Qed.
+Print Assumptions C13_at_most_nkeep_live_below_watermark.
+
+(* merge-operator entries: kept exactly until the first retention-ending entry of their key *)
+Theorem C13_merge_entries_kept_until_marker : forall p, cp_drop p = [] -> forall m e,
+  sorted m -> In e m -> is_merge e = true ->
+  (In e (compact_filter p m) <->
+   forall x, In x m -> e_key x = e_key e -> e_ver e < e_ver x -> stopper p m x = false).
+Proof. exact RetentionExactProofs.merge_entries_kept_until_marker. Qed.
+Print Assumptions C13_merge_entries_kept_until_marker.
+
+(* a version above the watermark never ends retention — not even a delete or a
+   discard-earlier-versions entry: those act only once the watermark has passed them *)
+Theorem C13_above_watermark_never_stops : forall p m x,
+  cp_discard p < e_ver x -> stopper p m x = false.
+Proof. exact RetentionExactProofs.above_watermark_never_stops. Qed.
+Print Assumptions C13_above_watermark_never_stops.
+
+(* NumVersionsToKeep = 0 is accepted by Options and means "every version": the count rule
+   (numVersions == NumVersionsToKeep, tested after the increment) never fires *)
+Theorem C13_nkeep_zero_keeps_every_version : forall p, cp_drop p = [] -> forall m e,
+  cp_nkeep p = 0 -> sorted m -> In e m ->
+  (forall x, In x m -> e_key x = e_key e -> e_ver e <= e_ver x ->
+     deleted_or_expired x (cp_now p) = false /\ has_discard x = false) ->
+  In e (compact_filter p m).
+Proof. exact RetentionExactProofs.nkeep_zero_keeps_every_version. Qed.
+Print Assumptions C13_nkeep_zero_keeps_every_version.
+
+(* ... so the upper bound needs its guard 1 <= NumVersionsToKeep *)
+Theorem C13_at_most_nkeep_unguarded_refuted :
+  exists p m k, cp_drop p = [] /\ sorted m /\
+    ~ N.of_nat (length (filter (fun e => bytes_eqb (e_key e) k && counted p e) (compact_filter p m)))
+      <= cp_nkeep p.
+Proof. exact RetentionExactProofs.at_most_nkeep_unguarded_refuted. Qed.
+Print Assumptions C13_at_most_nkeep_unguarded_refuted.
+
+(* ... and the exact characterisation needs the strict order (no repeated key@version) *)
+Theorem C13_retention_exact_duplicates_refuted :
+  exists p m, cp_drop p = [] /\ compact_filter p m <> filter (kept_spec p m) m.
+Proof. exact RetentionExactProofs.retention_exact_duplicates_refuted. Qed.
+Print Assumptions C13_retention_exact_duplicates_refuted.
+
+(* loop state on ARBITRARY streams (unsorted, with drop prefixes): the skip key is always the
+   last key, so a skip is only cleared by an entry of another key, at which point the version
+   count restarts — it never carries over to the next key and a key never resumes counting *)
+Theorem C13_skip_is_last_step : forall p st x st' b,
+  skip_is_last st -> filter_step p st x = (st', b) -> skip_is_last st'.
+Proof. exact RetentionExactProofs.skip_is_last_step. Qed.
+Print Assumptions C13_skip_is_last_step.
+
+Theorem C13_count_restarts_after_skip : forall p st x st' b k,
+  skip_is_last st -> cs_skip st = Some k -> e_key x <> k ->
+  has_any_prefix (cp_drop p) x = false ->
+  filter_step p st x = (st', b) ->
+  cs_nver st' = (if counted p x then 1 else 0).
+Proof. exact RetentionExactProofs.count_restarts_after_skip. Qed.
+Print Assumptions C13_count_restarts_after_skip.
+
+(* A concrete stream: watermark 10, NumVersionsToKeep 2, now = 100; meta bits: 1 delete,
+   4 discard-earlier, 8 merge. Keys [1] < [1;2] < [2] ([1] is a byte-prefix of [1;2]). *)
+Definition C13_stream : src :=
+  [ mkE [1] 12 4 0 0 [12]     (* above the watermark, discard-earlier: kept, stops nothing *)
+  ; mkE [1] 11 0 0 0 [11]     (* above the watermark: kept *)
+  ; mkE [1]  9 8 0 0 [9]      (* merge entry: kept, not counted *)
+  ; mkE [1]  8 0 0 0 [8]      (* counted #1: kept *)
+  ; mkE [1]  7 8 0 0 [7]      (* merge entry: kept *)
+  ; mkE [1]  6 0 0 0 [6]      (* counted #2 = NumVersionsToKeep: the stop entry, live: kept *)
+  ; mkE [1]  5 8 0 0 [5]      (* merge entry behind the stop entry: dropped *)
+  ; mkE [1]  4 0 0 0 [4]      (* dropped *)
+  ; mkE [1;2] 9 0 0 0 [9]     (* new key, count restarts: #1 kept *)
+  ; mkE [1;2] 8 0 0 50 [8]    (* expired (50 <= 100): the stop entry; kept only with overlap *)
+  ; mkE [1;2] 7 0 0 0 [7]     (* dropped *)
+  ; mkE [2] 10 4 0 0 [10]     (* at the watermark, discard-earlier: the stop entry, live: kept *)
+  ; mkE [2]  3 0 0 0 [3] ].   (* dropped *)
+
+Example C13_stream_sorted : sorted C13_stream.
+Proof. repeat constructor. Qed.
+
+Example C13_stream_no_overlap :
+  compact_filter (mkCP 10 2 false [] 100) C13_stream
+  = [ mkE [1] 12 4 0 0 [12]; mkE [1] 11 0 0 0 [11]; mkE [1] 9 8 0 0 [9]; mkE [1] 8 0 0 0 [8]
+    ; mkE [1] 7 8 0 0 [7]; mkE [1] 6 0 0 0 [6]
+    ; mkE [1;2] 9 0 0 0 [9]
+    ; mkE [2] 10 4 0 0 [10] ].
+Proof. vm_compute. reflexivity. Qed.
+
+Example C13_stream_with_overlap :
+  compact_filter (mkCP 10 2 true [] 100) C13_stream
+  = [ mkE [1] 12 4 0 0 [12]; mkE [1] 11 0 0 0 [11]; mkE [1] 9 8 0 0 [9]; mkE [1] 8 0 0 0 [8]
+    ; mkE [1] 7 8 0 0 [7]; mkE [1] 6 0 0 0 [6]
+    ; mkE [1;2] 9 0 0 0 [9]; mkE [1;2] 8 0 0 50 [8]
+    ; mkE [2] 10 4 0 0 [10] ].
+Proof. vm_compute. reflexivity. Qed.
+
+(* the specification computes the same thing, and names the three stop entries *)
+Example C13_stream_spec :
+  let p := mkCP 10 2 false [] 100 in
+  filter (kept_spec p C13_stream) C13_stream = compact_filter p C13_stream
+  /\ filter (stop_entry p C13_stream) C13_stream
+     = [ mkE [1] 6 0 0 0 [6]; mkE [1;2] 8 0 0 50 [8]; mkE [2] 10 4 0 0 [10] ]
+  /\ map (rank p C13_stream) C13_stream = [0;0;0;0;1;1;2;2;0;1;2;0;1].
+Proof. vm_compute. repeat split. Qed.
